@@ -23,15 +23,15 @@ pub fn any_options<M: Model>() -> ModelOptions {
 
 /// what a successfully initialised controller must look like
 pub fn assert_programmed(c: &Core, world: &World, o: &ModelOptions, dbi: u8) {
-    assert!(!c.sleeping && c.slpout_count >= 1, "[C11] controller awake after init");
-    assert!(c.disp_on, "[C11] display switched on after init");
-    assert!(c.madctl_count >= 1 && c.madctl == expected_madctl(o.color_order, o.orientation, o.refresh_order), "[C11][C14] address mode = encoding of colour order, orientation, refresh order");
-    assert!(c.colmod_seen && c.colmod & 0b111 == dbi, "[C11][C05] interface pixel format matches the model's colour type");
-    assert!(c.inv == if o.invert_colors == ColorInversion::Inverted { 2 } else { 1 }, "[C11] colour inversion as chosen");
-    assert!(c.ramwr_count == 0 && c.pixels == 0 && c.pixel_calls == 0, "[C11] init writes no pixel memory");
-    assert!(world.time_ns - c.slp_t >= 120_000_000, "[C11][C13] init returns >= 120 ms after sleep-out");
-    assert!(!c.slp_gap_bad, "[C13] sleep-in/out commands >= 120 ms apart");
-    assert!(c.slpin_count == 0, "[C11] init sends no sleep-in");
+    crate::indep! { assert!(!c.sleeping && c.slpout_count >= 1, "[C11] controller awake after init"); }
+    crate::indep! { assert!(c.disp_on, "[C11] display switched on after init"); }
+    crate::indep! { assert!(c.madctl_count >= 1 && c.madctl == expected_madctl(o.color_order, o.orientation, o.refresh_order), "[C11][C14] address mode = encoding of colour order, orientation, refresh order"); }
+    crate::indep! { assert!(c.colmod_seen && c.colmod & 0b111 == dbi, "[C11][C05] interface pixel format matches the model's colour type"); }
+    crate::indep! { assert!(c.inv == if o.invert_colors == ColorInversion::Inverted { 2 } else { 1 }, "[C11] colour inversion as chosen"); }
+    crate::indep! { assert!(c.ramwr_count == 0 && c.pixels == 0 && c.pixel_calls == 0, "[C11] init writes no pixel memory"); }
+    crate::indep! { assert!(world.time_ns - c.slp_t >= 120_000_000, "[C11][C13] init returns >= 120 ms after sleep-out"); }
+    crate::indep! { assert!(!c.slp_gap_bad, "[C13] sleep-in/out commands >= 120 ms apart"); }
+    crate::indep! { assert!(c.slpin_count == 0, "[C11] init sends no sleep-in"); }
 }
 
 /// Model::init called directly: every model x interface kind pair exists this way.
